@@ -107,6 +107,23 @@ Theorem C17_single_cause_timeout : forall s l1 now pto ce l2,
 Proof. exact single_cause_timeout. Qed.
 Print Assumptions C17_single_cause_timeout.
 
+(** exactly one recorded cause, whatever races: if a cause is recorded after a history of events it is the request of
+    one of its close events (application, peer's CONNECTION_CLOSE, Transport.Close / destroy, loop errors) or the timeout
+    found by one of its wake-ups, and every extension of the history records the same one; of requests racing at one
+    instant the one that reaches setCloseError first is recorded *)
+Theorem C17_one_recorded_cause : forall l s ce, closeErr s = None -> closeErr (run s l) = Some ce ->
+  (In (EvClose ce) l \/
+   exists now pto, In (EvWake now pto) l /\
+     (ce = {| ce_err := EIdle; ce_immediate := true |} \/ ce = {| ce_err := EHsTimeout; ce_immediate := true |})) /\
+  forall l', closeErr (run s (l ++ l')) = Some ce.
+Proof. exact recorded_cause_origin. Qed.
+Print Assumptions C17_one_recorded_cause.
+
+Theorem C17_race_first_wins : forall s reqs ce rest, closeErr s = None ->
+  closeErr (run s (map EvClose (ce :: reqs) ++ rest)) = Some ce.
+Proof. exact race_first_wins. Qed.
+Print Assumptions C17_race_first_wins.
+
 (** every later SendDatagram returns the cause, whether or not its queue has room
     (was refuted before datagramQueue.Add looked at the closed queue: finding F1) *)
 Theorem C17_send_datagram_after_close : forall a e, api_call (fanout a e) CSendDatagram = RErr e.
@@ -195,6 +212,22 @@ Print Assumptions C17_silent_causes_regression.
 Theorem C17_amplification_limited_silent : forall client sf ce a c, close_action client sf true ce <> ActSendClose a c.
 Proof. exact amplification_limited_silent. Qed.
 Print Assumptions C17_amplification_limited_silent.
+
+(** CONNECTION_CLOSE while the handshake is in progress (packetPacker.packConnectionClose, RFC 9000 10.2.3): in Initial and
+    Handshake packets an application close goes out as a transport close with APPLICATION_ERROR (0xc), so a peer that has
+    not completed the handshake never sees an application error code; transport closes are the same at every level *)
+Theorem C17_close_frame_during_handshake : forall isApp code,
+  frame_at LInitial (isApp, code) = frame_at LHandshake (isApp, code) /\
+  fst (frame_at LInitial (isApp, code)) = false /\
+  (isApp = true -> frame_at LInitial (isApp, code) = (false, rl_ApplicationErrorErrorCode)) /\
+  (isApp = false -> frame_at LInitial (isApp, code) = (false, code)) /\
+  frame_at L1RTT (isApp, code) = (isApp, code) /\ frame_at L0RTT (isApp, code) = (isApp, code).
+Proof. exact frame_at_levels. Qed.
+Print Assumptions C17_close_frame_during_handshake.
+
+Theorem C17_application_error_code_is_0xc : rl_ApplicationErrorErrorCode = 12.
+Proof. exact application_error_code_is_0xc. Qed.
+Print Assumptions C17_application_error_code_is_0xc.
 
 (** the stand-in of a locally closed connection (closed_conn.go after the anti-amplification repair): the back-off
     gate of this unit's model — a copy can only go out for packet n if n is a power of two — ... *)
